@@ -11,10 +11,13 @@ import (
 	"github.com/gittuf/gittuf/internal/policy"
 	"github.com/gittuf/gittuf/internal/tuf"
 	"github.com/gittuf/gittuf/pkg/githash"
+	"github.com/gittuf/gittuf/pkg/gitstore"
 	"github.com/gittuf/gittuf/pkg/rsl"
 	"github.com/gittuf/gittuf/verif/evid"
+	"github.com/gittuf/gittuf/verif/gitback"
 	"github.com/gittuf/gittuf/verif/keys"
 	"github.com/gittuf/gittuf/verif/memstore"
+	"github.com/gittuf/gittuf/verif/rec"
 	"github.com/gittuf/gittuf/verif/world"
 )
 
@@ -25,7 +28,7 @@ import (
 type c03Op struct {
 	Name string `json:"name"`
 	kind string
-	run  func(ms *memstore.Store) error
+	run  func(ms gitstore.Storer) error
 	// expectation on the appended entries (oldest first) when the op succeeded
 	expect func(added []world.ParsedText) string
 }
@@ -38,7 +41,7 @@ type c03World struct {
 	policies [2]*policy.State
 }
 
-func c03BuildWorld(ms *memstore.Store) *c03World {
+func c03BuildWorld(ms world.Backend) *c03World {
 	w := &c03World{}
 	t0 := world.Tree(ms, map[string]string{"a": "0"})
 	t1 := world.Tree(ms, map[string]string{"a": "1"})
@@ -77,11 +80,11 @@ func c03Ops(ms *memstore.Store, w *c03World, thorough bool) []c03Op {
 				}
 				return ""
 			}
-			ops = append(ops, c03Op{Name: fmt.Sprintf("record(%s,c%d)", ref, ci), kind: "one", run: func(ms *memstore.Store) error {
+			ops = append(ops, c03Op{Name: fmt.Sprintf("record(%s,c%d)", ref, ci), kind: "one", run: func(ms gitstore.Storer) error {
 				return rsl.NewReferenceEntry(ref, c).Commit(ms, false)
 			}, expect: want})
 			if ci == 0 && legacyOK {
-				ops = append(ops, c03Op{Name: fmt.Sprintf("record-legacy(%s,c%d)", ref, ci), kind: "legacy", run: func(ms *memstore.Store) error {
+				ops = append(ops, c03Op{Name: fmt.Sprintf("record-legacy(%s,c%d)", ref, ci), kind: "legacy", run: func(ms gitstore.Storer) error {
 					return rsl.NewReferenceEntry(ref, c).CommitWithoutNumber(ms)
 				}, expect: want})
 			}
@@ -117,7 +120,7 @@ func c03Ops(ms *memstore.Store, w *c03World, thorough bool) []c03Op {
 				if skip == false && m != "" {
 					continue
 				}
-				ops = append(ops, c03Op{Name: fmt.Sprintf("annotate(%s,skip=%v,msg=%q)", s.name, skip, m), kind: "annot", run: func(ms *memstore.Store) error {
+				ops = append(ops, c03Op{Name: fmt.Sprintf("annotate(%s,skip=%v,msg=%q)", s.name, skip, m), kind: "annot", run: func(ms gitstore.Storer) error {
 					return rsl.NewAnnotationEntry(s.ids, skip, m).Commit(ms, false)
 				}, expect: func(added []world.ParsedText) string {
 					if len(added) != 1 || added[0].Kind != "annotation" || len(added[0].EntryIDs) != len(s.ids) {
@@ -129,12 +132,11 @@ func c03Ops(ms *memstore.Store, w *c03World, thorough bool) []c03Op {
 		}
 	}
 	if legacyOK {
-		ops = append(ops, c03Op{Name: "annotate-legacy(latest)", kind: "legacy", run: func(ms *memstore.Store) error {
-			l := world.WalkRSL(ms)
-			if len(l) == 0 {
+		ops = append(ops, c03Op{Name: "annotate-legacy(latest)", kind: "legacy", run: func(ms gitstore.Storer) error {
+			if len(log) == 0 {
 				return errors.New("no entry")
 			}
-			id, _ := githash.NewHash(l[0].ID)
+			id, _ := githash.NewHash(log[0].ID)
 			return rsl.NewAnnotationEntry([]githash.Hash{id}, true, "").CommitWithoutNumber(ms)
 		}, expect: func(added []world.ParsedText) string {
 			if len(added) != 1 || added[0].Kind != "annotation" {
@@ -143,7 +145,7 @@ func c03Ops(ms *memstore.Store, w *c03World, thorough bool) []c03Op {
 			return ""
 		}})
 	}
-	ops = append(ops, c03Op{Name: "propagate(main,c1)", kind: "one", run: func(ms *memstore.Store) error {
+	ops = append(ops, c03Op{Name: "propagate(main,c1)", kind: "one", run: func(ms gitstore.Storer) error {
 		return rsl.NewPropagationEntry("refs/heads/main", w.commits[1], "https://up/stream", w.commits[0]).Commit(ms, false)
 	}, expect: func(added []world.ParsedText) string {
 		if len(added) != 1 || added[0].Kind != "propagation" {
@@ -153,7 +155,7 @@ func c03Ops(ms *memstore.Store, w *c03World, thorough bool) []c03Op {
 	}})
 	for v := 0; v < 2; v++ {
 		v := v
-		ops = append(ops, c03Op{Name: fmt.Sprintf("stage(policy%d)", v), kind: "one", run: func(ms *memstore.Store) error {
+		ops = append(ops, c03Op{Name: fmt.Sprintf("stage(policy%d)", v), kind: "one", run: func(ms gitstore.Storer) error {
 			return w.policies[v].Commit(ms, "stage", true, false)
 		}, expect: func(added []world.ParsedText) string {
 			if len(added) != 1 || added[0].Ref != policy.PolicyStagingRef {
@@ -162,7 +164,7 @@ func c03Ops(ms *memstore.Store, w *c03World, thorough bool) []c03Op {
 			return ""
 		}})
 	}
-	ops = append(ops, c03Op{Name: "apply", kind: "apply", run: func(ms *memstore.Store) error {
+	ops = append(ops, c03Op{Name: "apply", kind: "apply", run: func(ms gitstore.Storer) error {
 		return policy.Apply(world.Ctx, ms, false)
 	}, expect: func(added []world.ParsedText) string {
 		if len(added) < 1 {
@@ -187,7 +189,7 @@ func c03Ops(ms *memstore.Store, w *c03World, thorough bool) []c03Op {
 		}
 		return ""
 	}})
-	ops = append(ops, c03Op{Name: "discard", kind: "zero", run: func(ms *memstore.Store) error {
+	ops = append(ops, c03Op{Name: "discard", kind: "zero", run: func(ms gitstore.Storer) error {
 		return policy.Discard(ms)
 	}, expect: func(added []world.ParsedText) string {
 		if len(added) != 0 {
@@ -195,7 +197,7 @@ func c03Ops(ms *memstore.Store, w *c03World, thorough bool) []c03Op {
 		}
 		return ""
 	}})
-	ops = append(ops, c03Op{Name: "attest", kind: "one", run: func(ms *memstore.Store) error {
+	ops = append(ops, c03Op{Name: "attest", kind: "one", run: func(ms gitstore.Storer) error {
 		a, err := attestations.LoadCurrentAttestations(ms)
 		if err != nil {
 			return err
@@ -209,7 +211,7 @@ func c03Ops(ms *memstore.Store, w *c03World, thorough bool) []c03Op {
 	}})
 	for _, ref := range refs[:1] {
 		ref := ref
-		ops = append(ops, c03Op{Name: fmt.Sprintf("autoskip(%s)", ref), kind: "autoskip", run: func(ms *memstore.Store) error {
+		ops = append(ops, c03Op{Name: fmt.Sprintf("autoskip(%s)", ref), kind: "autoskip", run: func(ms gitstore.Storer) error {
 			return rsl.SkipAllInvalidReferenceEntriesForRef(ms, ref, false)
 		}, expect: func(added []world.ParsedText) string {
 			if len(added) > 1 {
@@ -247,6 +249,10 @@ type c03Replay struct {
 
 func c03Start(name string) (*memstore.Store, *c03World) {
 	ms := memstore.New()
+	return ms, c03StartOn(ms, name)
+}
+
+func c03StartOn(ms world.Backend, name string) *c03World {
 	w := c03BuildWorld(ms)
 	switch name {
 	case "empty":
@@ -263,7 +269,49 @@ func c03Start(name string) (*memstore.Store, *c03World) {
 		must(rsl.NewReferenceEntry("refs/heads/main", w.commits[1]).Commit(ms, false))
 		must(rsl.NewReferenceEntry("refs/heads/main", w.nonRSL).Commit(ms, false))
 	}
-	return ms, w
+	return w
+}
+
+// c03Conform runs start+op on a real git repository and on a fresh memstore,
+// both behind recorders, and requires identical Storer-call traces.
+func c03Conform(t *testing.T, start, opName string, thorough bool) string {
+	rsl.ResetCacheForVerif()
+	ms := memstore.New()
+	mrec := &rec.Recorder{Inner: ms}
+	mw := c03StartOn(recBackend{mrec, ms}, start)
+	var mop *c03Op
+	for _, op := range c03Ops(ms, mw, thorough) {
+		if op.Name == opName {
+			op := op
+			mop = &op
+		}
+	}
+	merr := mop.run(mrec)
+
+	rsl.ResetCacheForVerif()
+	g := gitback.New(t, false)
+	grec := &rec.Recorder{Inner: g}
+	c03StartOn(recBackend{grec, g}, start)
+	gerr := mop.run(grec)
+	rsl.ResetCacheForVerif()
+	if (merr == nil) != (gerr == nil) {
+		return fmt.Sprintf("%s/%s: memstore err=%v git err=%v", start, opName, merr, gerr)
+	}
+	if d := rec.Diff(mrec.Log, grec.Log); d != "" {
+		return fmt.Sprintf("%s/%s: %s", start, opName, d)
+	}
+	return ""
+}
+
+type rawWriter interface {
+	PutCommit(tree githash.Hash, parents []githash.Hash, message string, keyPEM []byte) (githash.Hash, error)
+	PutTag(target githash.Hash, name, message string, keyPEM []byte) (githash.Hash, error)
+}
+
+// recBackend = recorded Storer calls + unrecorded raw object writes.
+type recBackend struct {
+	*rec.Recorder
+	rawWriter
 }
 
 func must(err error) {
@@ -401,6 +449,11 @@ func TestC03(t *testing.T) {
 						if !evid.Mine(item) {
 							continue
 						}
+						if diff := c03Conform(t, start, op.Name, thorough); diff != "" {
+							col.Fail("memstore/git conformance: " + diff)
+							return
+						}
+						col.Inc("traces_validated_against_impl")
 					}
 					if col.Expired() {
 						return
